@@ -191,7 +191,14 @@ fn pair(starter: &str, sa: &[usize], sb: &[usize], tail_a: &[u8], tail_b: &[u8],
     let mut a = Side { hs: if orig { None } else { Some(Handshake::new(PeerType::Client)) }, out: vec![], sent: 0, received: 0, emitted: vec![], done: false, remaining: vec![], orig_stage: 0, orig_in: vec![] };
     let mut b = Side { hs: Some(Handshake::new(PeerType::Server)), out: vec![], sent: 0, received: 0, emitted: vec![], done: false, remaining: vec![], orig_stage: 0, orig_in: vec![] };
     if orig {
-        let mut c01 = vec![3u8, 0, 0, 0, 9, 0, 0, 0, 0];
+        // time and "zero" fields: the library must not read anything into them (random content per §5.2 peers in
+        // the wild: some put a version or uptime there)
+        let mut c01 = match (sa.len() + sb.len() + tail_a.len() + tail_b.len()) % 4 {
+            0 => vec![3u8, 0, 0, 0, 9, 0, 0, 0, 0],
+            1 => vec![3u8, 0, 0, 0, 9, 1, 2, 3, 4],
+            2 => vec![3u8, 0xff, 0xff, 0xff, 0xff, 0xff, 0xff, 0xff, 0xff],
+            _ => vec![3u8, 0, 0, 0, 0, 0, 0, 0, 1],
+        };
         for i in 0..1528 { c01.push((i * 7 + 13) as u8); }
         a.out.extend_from_slice(&c01); a.emitted.extend_from_slice(&c01);
     } else if starter == "a" || starter == "both" {
